@@ -200,6 +200,15 @@ Section SubParsers.
   Definition parse_not (j : json) : M (list elem) := do e <- P j;; ret [ENot e None].
 End SubParsers.
 
+Section ParseKeys.
+  Variable sub : str -> M (list elem).
+  Fixpoint parse_keys (ks : list str) : M (list (str * list elem)) :=
+    match ks with
+    | [] => ret []
+    | key :: r => do es <- sub key;; do rest <- parse_keys r;; ret ((key, es) :: rest)
+    end.
+End ParseKeys.
+
 Section Parser.
   Variable cfg : pcfg.
   Definition attr := attr_name (c_unicode cfg) (c_reserved cfg).
@@ -325,11 +334,7 @@ Section Parser.
         let sub (key : str) : M (list elem) :=
           with_key (parse_comp_list parse_element) key kvs (ret []) in
         (* the three list-valued keywords are parsed in c_comp_order *)
-        do parsed <- (fix go (ks : list str) : M (list (str * list elem)) :=
-                        match ks with
-                        | [] => ret []
-                        | key :: r => do es <- sub key;; do rest <- go r;; ret ((key, es) :: rest)
-                        end) (c_comp_order cfg);;
+        do parsed <- parse_keys sub (c_comp_order cfg);;
         let of key := match lookup (s_ key) parsed with Some l => l | None => [] end in
         do nots <- with_key (parse_not parse_element) (s_ "not") kvs (ret []);;
         let all_of := base :: of "allOf" ++ [compose MOne (of "oneOf"); compose MAny (of "anyOf")] ++ nots in
